@@ -275,6 +275,16 @@ func (v *ValDialect) Val(i int) interface{} {
 	case "bigstr":
 		// values of 1.2-4.8 KB: a node of a few entries exceeds typical 4 KiB buffers
 		return strings.Repeat(string(rune('a'+i%26)), 1200+(i%7)*600) + "#" + strconv.Itoa(i)
+	case "hugestr":
+		// mostly short strings; a few value indexes are very large (past 64 KiB, past 1 MiB):
+		// nothing in the library bounds the size of an entry
+		switch i {
+		case 3, 28:
+			return strings.Repeat("k", 66000+i) + "#" + strconv.Itoa(i)
+		case 7, 32:
+			return strings.Repeat("M", (1<<20)+100+i) + "#" + strconv.Itoa(i)
+		}
+		return "h" + strconv.Itoa(i)
 	case "ptr":
 		// a fresh allocation per call: equal values are distinct objects
 		return &SVal{X: i, Y: "p" + strconv.Itoa(i%3)}
@@ -298,7 +308,7 @@ func (v *ValDialect) Like() interface{} {
 		return LVal{}
 	case "ptr":
 		return &SVal{}
-	case "bigstr":
+	case "bigstr", "hugestr":
 		return ""
 	case "inf":
 		return float64(0)
@@ -331,4 +341,4 @@ func (v *ValDialect) Distinct(i, j int) bool {
 }
 
 var allKeyDialects = []string{"int", "int64", "uint", "uint64", "string", "bytes", "userkey", "struct", "lstruct"}
-var allValDialects = []string{"int", "string", "struct", "bytes", "lval", "ptr", "bigstr", "inf", "nil"}
+var allValDialects = []string{"int", "string", "struct", "bytes", "lval", "ptr", "bigstr", "inf", "nil", "hugestr"}
